@@ -40,10 +40,11 @@ def run_impl(case, cfg=None, cls=None):
         from chameleon.i18n import simple_translate
 
         def translate(msgid, domain=None, mapping=None, context=None, target_language=None, default=None):
-            if isinstance(msgid, str):
-                tlog.append({'msgid': str(msgid), 'mapping': None if mapping is None else {k: str(v) for k, v in mapping.items()},
-                             'default': None if default is None else str(default), 'domain': domain, 'context': context,
-                             'target': target_language})
+            # a message of the template (a plain str), or an inserted value that is not a string, a number or an __html__
+            # object, offered by __convert/__quote before it is converted ('offered')
+            tlog.append({'msgid': str(msgid), 'mapping': None if mapping is None else {k: str(v) for k, v in mapping.items()},
+                         'default': None if default is None else str(default), 'domain': domain, 'context': context,
+                         'target': target_language, 'offered': type(msgid) is not str})
             return simple_translate(msgid, domain=domain, mapping=mapping, context=context, target_language=target_language, default=default)
         config['translate'] = translate
     body = bytes(case['src']) if case.get('bytes') else case['src']
